@@ -7,7 +7,7 @@
                        are within the range of the DSDL element type.
    db_wok db : what pydsdl guarantees of every type database (a union has options, signed widths <= 64). *)
 From Coq Require Import List NArith ZArith Bool.
-From Verif Require Import PyObj Gen_PyObj Gen_Pin_c18support PyObjThm PyObjThmRt PyObjThmRt2.
+From Verif Require Import PyObj Gen_PyObj Gen_Pin_c18support PyObjThm PyObjThmRt PyObjThmRt2 PyObjThmWrap.
 Import ListNotations.
 Open Scope Z_scope.
 
@@ -72,6 +72,42 @@ Theorem C18_float_array_elem_noquirk :
 Proof. exact (conj float_array_elem_checked_noquirk float_array_elem_boundary_noquirk). Qed.
 Print Assumptions C18_float_array_elem_noquirk.
 
+(* F-PY-ARRWRAP.  `set_precheck b tmpl_gen` is the scanned template with the fact "the conversion path range-checks the source
+   before np.array(src, dtype) casts it" set to b; `tmpl_gen` itself is one of the two (C18_tmpl_live).
+   Without the pre-check an ndarray of another dtype wraps around silently ... *)
+Theorem C18_array_elem_wrap_refuted : forall q,
+  assign_array (set_precheck false tmpl_gen) pick_width_gen q false 4 false (EPrim (KU 8)) (PArr (DS 64) [PInt 256; PInt 1])
+  = Ok (PArr (DU 8) [PInt 0; PInt 1])
+  /\ assign_array (set_precheck false tmpl_gen) pick_width_gen q true 2 false (EPrim (KS 16)) (PArr (DS 64) [PInt 70000; PInt 1])
+     = Ok (PArr (DS 16) [PInt 4464; PInt 1]).
+Proof. intro q. exact (conj (array_elem_wrap_refuted q) (array_elem_wrap_signed_refuted q)). Qed.
+Print Assumptions C18_array_elem_wrap_refuted.
+
+(* ... while Python ints are never wrapped (the trigger is exactly "inside an ndarray of another dtype") ... *)
+Theorem C18_array_src_partial : forall q fixed cap sl k zs v, (exists w, k = KU w \/ k = KS w) ->
+  assign_array (set_precheck false tmpl_gen) pick_width_gen q fixed cap sl (EPrim k) (PList (map PInt zs)) = Ok v ->
+  v = PArr (dtype_of pick_width_gen (EPrim k)) (map PInt zs) /\
+  Forall (fun z => fits (dtype_of pick_width_gen (EPrim k)) (PInt z) = true) zs.
+Proof. exact array_src_partial. Qed.
+Print Assumptions C18_array_src_partial.
+
+(* ... and with the pre-check every accepted integer ndarray of another dtype is stored unchanged and lies within the FIELD's range *)
+Theorem C18_array_src_checked : forall q fixed cap w dt' zs v, 1 <= w <= 64 -> dtype_eqb dt' (DU (pwd pick_width_gen w)) = false ->
+  assign_array (set_precheck true tmpl_gen) pick_width_gen q fixed cap false (EPrim (KU w)) (PArr dt' (map PInt zs)) = Ok v ->
+  v = PArr (DU (pwd pick_width_gen w)) (map PInt zs) /\ Forall (fun z => urange w z = true) zs.
+Proof. exact array_src_checked_nowrap. Qed.
+Print Assumptions C18_array_src_checked.
+
+Theorem C18_array_src_checked_ndarray : forall q fixed cap k dt' l v, (exists w, k = KU w \/ k = KS w) ->
+  dtype_eqb dt' (dtype_of pick_width_gen (EPrim k)) = false ->
+  assign_array (set_precheck true tmpl_gen) pick_width_gen q fixed cap false (EPrim k) (PArr dt' l) = Ok v ->
+  forallb (int_leaf_ok (EPrim k)) l = true /\ (forall z, In (PInt z) l -> int_in_range k z = true).
+Proof. exact array_src_checked_ndarray. Qed.
+Print Assumptions C18_array_src_checked_ndarray.
+
+Theorem C18_tmpl_live : tmpl_gen = set_precheck (t_arr_precheck tmpl_gen) tmpl_gen.
+Proof. exact tmpl_live. Qed.
+
 (* a raising property setter leaves the object as it was *)
 Theorem C18_reject_means_unchanged : forall q db tid o i e o' ex,
   step tmpl_gen pick_width_gen q db tid o (OSet i e) = (o', Some ex) -> o' = o.
@@ -110,8 +146,8 @@ Theorem C18_array_length_exact : forall q fixed cap sl w zs, 1 <= w <= 64 -> For
 Proof. exact array_length_exact. Qed.
 Print Assumptions C18_array_length_exact.
 
-(* whatever a setter stores satisfies the contract of its field (any field type, any argument) *)
-Theorem C18_field_value_ok : forall q db f x v, wfv pick_width_gen db false x = true ->
+(* whatever a setter stores satisfies the contract of its field (any field type with signed element widths <= 64, any argument) *)
+Theorem C18_field_value_ok : forall q db f x v, ftype_wok f = true -> wfv pick_width_gen db false x = true ->
   field_value tmpl_gen pick_width_gen q f x = Ok v ->
   field_ok pick_width_gen false f v = true /\ wfv pick_width_gen db false v = true /\ is_none v = false.
 Proof. exact field_value_ok. Qed.
@@ -137,7 +173,7 @@ Print Assumptions C18_update_from_builtin_ok.
    and nested composites excluded -- those are covered by the correspondence run only) *)
 Theorem C18_builtin_roundtrip_flat : forall q db tid c slots dslots b fuel,
   nth_error db tid = Some c -> forallb ftype_flat (c_fields c) = true ->
-  obj_ok pick_width_gen false c slots = true -> (q = false -> obj_ok pick_width_gen true c slots = true) ->
+  obj_ok pick_width_gen false c slots = true -> (need_strict q -> obj_ok pick_width_gen true c slots = true) ->
   length dslots = length (c_fields c) ->
   tb db (PObj tid slots) = Some b ->
   ufb tmpl_gen pick_width_gen q db (S fuel) (PObj tid dslots) b = (PObj tid slots, None).
@@ -153,7 +189,7 @@ Print Assumptions C18_builtin_roundtrip_flat.
 Theorem C18_builtin_roundtrip : forall q db fuel tid slots b,
   db_strok db = true -> db_defaults_ok q db = true ->
   let o := PObj tid slots in
-  wfv pick_width_gen db false o = true -> (q = false -> wfv pick_width_gen db true o = true) -> rt_ok q db o = true ->
+  wfv pick_width_gen db false o = true -> (need_strict q -> wfv pick_width_gen db true o = true) -> rt_ok q db o = true ->
   tb db o = Some b -> (vdepth o <= fuel)%nat ->
   ufb tmpl_gen pick_width_gen q db fuel (default_obj tmpl_gen pick_width_gen q db tid) b = (o, None).
 Proof. exact builtin_roundtrip. Qed.
@@ -194,10 +230,10 @@ Proof. vm_compute. split; reflexivity. Qed.
 
 Example C18_witness_is_wellformed :
   let db := [ {| c_union := false; c_fields := [FArr false 3 false (EPrim (KU 4))] |} ] in
-  let ops := [OSet 0 (XVal (PList [PInt 200; PInt 3]))] in
+  let op := OSet 0 (XNd (DU 8) [XVal (PInt 200); XVal (PInt 3)]) in                       (* numpy.array([200, 3], uint8) *)
   db_wok db = true
-  /\ wfv pick_width_gen db false (run tmpl_gen pick_width_gen true db 0 ops) = true      (* shape contract holds *)
-  /\ wfv pick_width_gen db true (run tmpl_gen pick_width_gen true db 0 ops) = false      (* element range does not *)
-  /\ snd (step tmpl_gen pick_width_gen false db 0 (default_obj tmpl_gen pick_width_gen false db 0) (OSet 0 (XVal (PList [PInt 200; PInt 3]))))
-     = Some ValueError.                                                                 (* the conformant variant rejects *)
+  /\ wfv pick_width_gen db false (run tmpl_gen pick_width_gen true db 0 [op]) = true      (* shape contract holds *)
+  /\ wfv pick_width_gen db true (run tmpl_gen pick_width_gen true db 0 [op]) = false      (* element range does not *)
+  /\ snd (step tmpl_gen pick_width_gen false db 0 (default_obj tmpl_gen pick_width_gen false db 0) op) = Some ValueError.
+                                                                                          (* the conformant variant rejects *)
 Proof. vm_compute. repeat split; reflexivity. Qed.
